@@ -671,9 +671,11 @@ pub fn trace_of<const M: usize>(cap: usize, hist: &[Op]) -> String {
     t
 }
 
-/// Calls on unrelated graphs, chosen to leave traces in any hidden state: a merge that fails, a
-/// merge that succeeds, a slice, a script with variables, a save and a load of a larger image.
-pub fn unrelated_calls<const N: usize>(round: usize) {
+/// Calls on unrelated graphs, chosen to leave traces in any hidden state (scratch buffers,
+/// caches kept in the thread or the process): a slice, a script with variables, a save and a load
+/// of a larger image, inspect, and merges. With `residue` the last merges FAIL (an early-return
+/// path that may skip a clean-up), otherwise the last merge succeeds.
+pub fn unrelated_calls<const N: usize>(residue: bool) {
     let _ = guarded(|| {
         let mut a: Sodg<N> = Sodg::empty(12);
         for v in 0..6 {
@@ -683,12 +685,6 @@ pub fn unrelated_calls<const N: usize>(round: usize) {
         a.bind(1, 2, lab(0));
         a.bind(3, 4, lab(0));
         a.put(2, &crate::menu::dat(6));
-        let mut b: Sodg<N> = Sodg::empty(12);
-        b.add(0);
-        b.add(7);
-        // fails: vertices 3, 4, 5 (and 0 when started below the root) are never reached
-        let _ = b.merge(&a, 0, if round % 2 == 0 { 0 } else { 1 });
-        let _ = b.merge(&a, 7, 3);
         let _ = a.slice(0).map(|s| s.len());
         let mut c: Sodg<N> = Sodg::empty(12);
         let _ = sodg::Script::from_str("ADD($x); ADD($y); BIND($x, $y, foo); PUT($y, CA-FE);").deploy_to(&mut c);
@@ -698,23 +694,46 @@ pub fn unrelated_calls<const N: usize>(round: usize) {
         }
         let _ = a.inspect(0);
         let _ = a.next_id();
+        let mut b: Sodg<N> = Sodg::empty(12);
+        b.add(0);
+        b.add(7);
+        if residue {
+            // fail: the right graph is a forest, whatever the start
+            let _ = b.merge(&a, 0, 0);
+            let _ = b.merge(&a, 7, 3);
+            let _ = b.merge(&a, 7, 5);
+        } else {
+            let mut t: Sodg<N> = Sodg::empty(4);
+            t.add(0);
+            t.add(1);
+            t.bind(0, 1, lab(0));
+            let _ = b.merge(&t, 0, 0); // succeeds
+        }
     });
 }
 
 pub fn lockstep_probe<const N: usize>(cfg: &HxCfg, hist: &dyn Fn() -> Vec<Op>, out: &mut Vec<Finding>, counters: &mut BTreeMap<&'static str, u64>) {
     let tags: &[&'static str] = &["C19"];
     let h = hist();
+    // calls on unrelated objects in between must not matter: state hidden in the thread or the
+    // process (scratch buffers, caches) would make a replay come out differently. The base trace
+    // is taken after unrelated calls that all succeed, the replays after ones that end in failures.
+    if cfg.probes.rerun > 0 {
+        unrelated_calls::<N>(false);
+    }
     let base = trace_of::<N>(cfg.cap, &h);
     for i in 0..cfg.probes.rerun {
-        // calls on unrelated objects in between must not matter: state hidden in the thread or the
-        // process (scratch buffers, caches) would make the replay come out differently
-        unrelated_calls::<N>(i);
+        unrelated_calls::<N>(i % 2 == 0);
         let again = trace_of::<N>(cfg.cap, &h);
         bump(counters, "reruns_compared", 1);
         if again != base {
-            out.push(Finding::new("rerun-differs", tags, format!("replaying the same history in a fresh object (run {}) gives a different result: {}", i + 2, first_diff(&base, &again))));
+            out.push(Finding::new("rerun-differs", tags, format!("replaying the same history in a fresh object (run {}, after calls on unrelated graphs) gives a different result: {}", i + 2, first_diff(&base, &again))));
+            unrelated_calls::<N>(false);
             return;
         }
+    }
+    if cfg.probes.rerun > 0 {
+        unrelated_calls::<N>(false);
     }
     for (n2, cap2) in &cfg.probes.lockstep {
         assert!(*n2 >= cfg.n && *cap2 >= cfg.cap, "the lock-step configuration must be at least as large as the base configuration");
